@@ -3,4 +3,4 @@ From OV Require Import Common.Base C01.Model.
 Extraction Language OCaml.
 Extraction "C01_model.ml" pool_init pool_call pool_step alloc_lifo lifo_choice ledger assignable contains
   pd_init pd_step pd_valid pd_wf index_to_prefix prefix_to_index pd_count
-  pool_geom pd_new reg_config reg_init reg_step pd_overlap overlaps alloc_target acontains akey r_allocs pools_of resolve4 resolve6 resolve4_ctx resolve6_ctx reg_step_opt resolve4_ctx_opt resolve6_ctx_opt.
+  pool_geom pd_new reg_config reg_init reg_step pd_overlap overlaps alloc_target acontains akey r_allocs pools_of resolve4 resolve6 resolve4_ctx resolve6_ctx reg_step_opt resolve4_ctx_opt resolve6_ctx_opt new_context4 new_context6.
